@@ -94,48 +94,63 @@ impl Parser {
 // ---------------------------------------------------------------- extracted real code: the sink and the entry point
 //@item crates/jrsonnet-rowan-parser/src/event.rs :: enum Event ;; keep-pub
 //@item crates/jrsonnet-rowan-parser/src/event.rs :: struct Sink
-//@item crates/jrsonnet-rowan-parser/src/event.rs :: impl<'i> Sink<'i>
+impl<'i> Sink<'i> {
+//@item crates/jrsonnet-rowan-parser/src/event.rs :: impl<'i> Sink<'i> > fn new
+//@item crates/jrsonnet-rowan-parser/src/event.rs :: impl<'i> Sink<'i> > fn token
+//@item crates/jrsonnet-rowan-parser/src/event.rs :: impl<'i> Sink<'i> > fn skip_whitespace
+    pub fn run_skip_whitespace(&mut self) { self.skip_whitespace() }
+}
+/// the entry point with the sink replaced by a stand-in: only what parse() hands to the parser is observed here
+pub mod entry {
+    use super::{lex, AstToken, GreenNode, LocatedSyntaxError, Parse, Parser, SourceFile, Trivia, Vec, Event};
+    pub struct Sink;
+    impl Sink { pub fn new(_e: Vec<Event>, _l: &[lex::Lexeme<'_>]) -> Self { Sink } pub fn finish(self) -> Parse { Parse { green_node: super::GreenNodeBuilder::new().finish(), errors: Vec::new() } } }
 //@item crates/jrsonnet-rowan-parser/src/lib.rs :: fn parse ;; keep-pub
+}
 
 #[cfg(kani)]
 mod harness {
     use super::*;
-    fn any_trivia() -> SyntaxKind { match kani::any::<u8>() % 6 { 0 => WHITESPACE, 1 => MULTI_LINE_COMMENT, 2 => ERROR_COMMENT_TOO_SHORT, 3 => ERROR_COMMENT_UNTERMINATED, 4 => SINGLE_LINE_HASH_COMMENT, _ => SINGLE_LINE_SLASH_COMMENT } }
-    /// run the real parse() over a scripted lexeme sequence and compare the tree's tokens with the lexemes
-    fn check(n: usize) {
-        unsafe { NSCRIPT = n; }
-        let (tree, errors) = parse(INPUT);
-        let g = &tree.syntax;
-        assert!(g.n == n, "obligation: every lexeme of the input is attached to the tree exactly once (nothing lost, nothing duplicated)");
-        let mut i = 0;
-        while i < n { let (k, s, e) = unsafe { SCRIPT[i] }; let t = &INPUT[s as usize..e as usize];
-            assert!(g.toks[i] == (t.as_ptr() as usize, t.len(), k as u16), "obligation: lexemes appear in input order, each with its own text and kind (tree text == input)"); i += 1; }
-        assert!(g.open == 0 && !g.underflow, "obligation: node starts and finishes balance");
-        mem::forget(errors);
+    /// every token kind of the language (discriminants are dense, TOMBSTONE = 0 .. __LAST)
+    fn any_kind() -> SyntaxKind { let d: u8 = kani::any(); kani::assume((d as u16) < SyntaxKind::__LAST as u16); assert!(mem::size_of::<SyntaxKind>() == 1); unsafe { mem::transmute::<u8, SyntaxKind>(d) } }   // (#[repr(u16)] is dropped by R1; < 256 variants)
+    /// The two sites agree, for EVERY kind: a lexeme kind is withheld from the parser by parse() exactly when the sink re-attaches it
+    /// by itself (skip_whitespace) -- otherwise the Token events and the lexemes drift apart and text is lost or duplicated.
+    #[kani::proof] #[kani::unwind(5)]
+    fn h_filter_matches_reattach() {
+        let k = any_kind();
+        unsafe { SCRIPT[0] = (k, 0, 3); SCRIPT[1] = (IDENT, 3, 4); NSCRIPT = 2; }
+        let (tree, errors) = entry::parse(INPUT);
+        let withheld = unsafe { PARSER_SAW } == 1;              // the IDENT is always passed on
+        assert!(unsafe { PARSER_SAW } >= 1, "obligation: real tokens reach the parser");
+        let lexemes = lex::lex(INPUT);
+        let mut sink = Sink::new(Vec::new(), &lexemes);
+        sink.builder.start_node(JsonnetLanguage::kind_to_raw(SOURCE_FILE));
+        sink.run_skip_whitespace();
+        let g = sink.builder.finish();
+        assert!((g.n == 1) == withheld && g.n <= 1, "obligation: the sink re-attaches by itself exactly the kinds parse() withholds from the parser (whitespace, comments, error comments)");
+        if g.n == 1 { let t = &INPUT[0..3]; assert!(g.toks[0] == (t.as_ptr() as usize, 3, k as u16), "obligation: a re-attached lexeme keeps its own text and kind"); }
+        assert!(withheld == matches!(k, WHITESPACE | MULTI_LINE_COMMENT | SINGLE_LINE_HASH_COMMENT | SINGLE_LINE_SLASH_COMMENT | ERROR_COMMENT_TOO_SHORT | ERROR_COMMENT_UNTERMINATED), "obligation: exactly whitespace, the three comment forms and the two malformed-comment lexemes are trivia");
+        mem::forget((tree, errors, lexemes));
+        kani::cover!(k == ERROR_COMMENT_TOO_SHORT); kani::cover!(k == IDENT); kani::cover!(k == WHITESPACE);
     }
-    #[kani::proof] #[kani::unwind(12)]
-    fn h_trivia_between_and_after() {
-        // tok T tok T  -- T any trivia kind, e.g. `a /*/ b /* unterminated`
-        let (t1, t2) = (any_trivia(), any_trivia());
-        unsafe { SCRIPT[0] = (IDENT, 0, 1); SCRIPT[1] = (t1, 1, 4); SCRIPT[2] = (IDENT, 4, 5); SCRIPT[3] = (t2, 5, 9); }
-        check(4);
-        unsafe { assert!(PARSER_SAW == 2, "obligation: the parser is given exactly the non-trivia tokens"); }
-        kani::cover!(t1 == ERROR_COMMENT_TOO_SHORT); kani::cover!(t2 == ERROR_COMMENT_UNTERMINATED);
-    }
-    #[kani::proof] #[kani::unwind(12)]
-    fn h_trivia_leading_and_runs() {
-        // T T tok T T tok tok
-        let (t1, t2, t3, t4) = (any_trivia(), any_trivia(), any_trivia(), any_trivia());
-        unsafe { SCRIPT[0] = (t1, 0, 2); SCRIPT[1] = (t2, 2, 3); SCRIPT[2] = (IDENT, 3, 4); SCRIPT[3] = (t3, 4, 6); SCRIPT[4] = (t4, 6, 7); SCRIPT[5] = (FLOAT, 7, 8); SCRIPT[6] = (IDENT, 8, 9); }
-        check(7);
-        unsafe { assert!(PARSER_SAW == 3, "obligation: the parser is given exactly the non-trivia tokens"); }
-        kani::cover!(t1 == ERROR_COMMENT_TOO_SHORT && t4 == MULTI_LINE_COMMENT);
-    }
-    #[kani::proof] #[kani::unwind(12)]
-    fn h_only_trivia_or_empty() {
-        let t1 = any_trivia(); let n: usize = if kani::any() { 1 } else { 0 };
-        unsafe { SCRIPT[0] = (t1, 0, 3); }
-        check(n);
-        kani::cover!(n == 1 && t1 == ERROR_COMMENT_UNTERMINATED); kani::cover!(n == 0);
+    /// skip_whitespace attaches the maximal run of trivia, in order, and stops at the first token; token() attaches exactly one lexeme
+    #[kani::proof] #[kani::unwind(6)]
+    fn h_skip_run() {
+        let n_triv: usize = kani::any(); kani::assume(n_triv <= 3);
+        let kinds = [WHITESPACE, ERROR_COMMENT_TOO_SHORT, SINGLE_LINE_HASH_COMMENT];
+        let mut i = 0; while i < n_triv { unsafe { SCRIPT[i] = (kinds[i], i as u32, i as u32 + 1); } i += 1; }
+        unsafe { SCRIPT[n_triv] = (IDENT, n_triv as u32, n_triv as u32 + 1); SCRIPT[n_triv + 1] = (WHITESPACE, n_triv as u32 + 1, n_triv as u32 + 2); NSCRIPT = n_triv + 2; }
+        let lexemes = lex::lex(INPUT);
+        let mut sink = Sink::new(Vec::new(), &lexemes);
+        sink.builder.start_node(JsonnetLanguage::kind_to_raw(SOURCE_FILE));
+        sink.run_skip_whitespace();
+        sink.token(IDENT);
+        sink.run_skip_whitespace();
+        sink.run_skip_whitespace();
+        let g = sink.builder.finish();
+        assert!(g.n == n_triv + 2, "obligation: every lexeme attached exactly once (a repeated skip at the end adds nothing)");
+        let mut j = 0; while j < n_triv + 2 { let (k, s, e) = unsafe { SCRIPT[j] }; let t = &INPUT[s as usize..e as usize]; assert!(g.toks[j] == (t.as_ptr() as usize, t.len(), k as u16), "obligation: input order, own text"); j += 1; }
+        mem::forget(lexemes);
+        kani::cover!(n_triv == 3); kani::cover!(n_triv == 0);
     }
 }
